@@ -67,7 +67,7 @@ PROPS = {
         "technique": "exhaustive enumeration of read segmentations (all cut sets up to a size) of request streams, delivered in lock-step to the real read/handle/send code under a controlled executor; oracle: same responses as the per-request segmentation; bound to the real Session::manage by TCP replay",
         "engine": "vmc",
         "level_text": "Schedule-space exploration, deviation-bounded by the number of cuts: 110 streams (10 single requests, 100 ordered pairs; bodies none / plain / NUL-leading / spanning the buffer end) x every cut set of size 0 and 1 (all positions) and 2 (all positions on streams <=160 bytes, structural neighbourhoods otherwise), thorough also 3 cuts on streams <=120 bytes. Oracle: response sequence and end state equal those of the one-segment-per-request delivery. 0/1-cut (thorough: also 2-cut) schedules of the shortest streams are replayed over real TCP against Session::manage.",
-        "level_note": "Trusted: as C05. Known findings (one read() per request head: split heads are refused, coalesced requests dropped) are recorded in known_findings.json by cut location x symptom; wrong-response / stall / panic / extra-response symptoms are never masked.",
+        "level_note": "Trusted: as C05. The two defects this check found on the unchanged tree (one read() per request head; bytes after the first request in a read dropped) were repaired (known_findings.json, status fixed): no finding is suppressed.",
         "jobs": {"quick": 16, "thorough": 16},
         "assumptions": COMMON_ASSUMPTIONS + ["loopback TCP in the sandbox behaves like TCP"],
         "min_outcomes": 4,
